@@ -63,6 +63,10 @@ class EdgeSpanningTree(SpanningTree):
         return self.mesh.is_edge_on_border(a,b)
 
     def compute(self):
+        # start from empty tables: compute() can be called more than once
+        self.parent = [None]*len(self.mesh.vertices)
+        self.children = [[] for _ in self.mesh.id_vertices]
+        self.edges = []
         dist_to_root = [float("inf") for v in self.mesh.id_vertices]
         seen = [False for v in self.mesh.id_vertices]
         queue = deque()
@@ -138,6 +142,10 @@ class EdgeMinimalSpanningTree(EdgeSpanningTree):
         self.weights = weights
 
     def compute(self):
+        # start from empty tables: compute() can be called more than once
+        self.parent = [None]*len(self.mesh.vertices)
+        self.children = [[] for _ in self.mesh.id_vertices]
+        self.edges = []
         if self.weights=="one":
             edge_length = lambda _ : 1.
         elif self.weights== "length":
@@ -186,6 +194,9 @@ class EdgeSpanningForest(SpanningForest):
         super().__init__(mesh)
 
     def compute(self) -> None :
+        # start from an empty forest: compute() can be called more than once
+        self.trees = []
+        self.roots = []
         visited = [False]*len(self.mesh.vertices)
         for v in self.mesh.id_vertices:
             if not visited[v]:
